@@ -138,6 +138,7 @@ func init() {
 			panic(err)
 		}
 		n := cs.bytes()
+		i = rp.ContentHash(raw) // per-case choices derive from the content, so the case replays alone identically
 		type mode struct {
 			seg      string
 			lockstep bool
